@@ -169,7 +169,9 @@ enum { NP = 0x100, NP2 = 0x1200, LBUF = 0x2400, RES = 0x400, STAT = 0x500 };
 
 /* name alphabet: directory handle selector (0 pre-open, 1 descriptor 4 = opened "d") and string; '@' stands for the base directory */
 static const struct { int sel; const char* s; } NAMES[] = {
-    {0, "a"}, {0, "b"}, {0, "d"}, {0, "d/a"}, {0, "missing/x"}, {0, "@/a"}, {0, "#"}, {1, "a"}, {1, "n"}};
+    {0, "a"}, {0, "b"}, {0, "d"}, {0, "d/a"}, {0, "missing/x"}, {0, "@/a"}, {0, "#"}, {1, "a"}, {1, "n"},
+    /* a trailing separator: only a directory (or a link to one) may be named like that */
+    {0, "a/"}, {0, "b/"}};
 
 static void nameFor(int idx, const char* base, char* guest, char* host, size_t cap) {
     const char* s = NAMES[idx].s;
